@@ -20,16 +20,25 @@ META = {
             "design_ref": "DESIGN.md 6/C19", "note": NOTE, "technique": "TLA+ spec + TLC model checking + TLC trace validation of real executions"},
     "C04": {"text": "TLC exhaustive check of the transcribed decision function (spec/cw3/Cw3Threshold.tla) against the documented rule with explicit quantification over all completions of the outstanding votes, on a complete small domain (all totals <= MaxT, all splits, all count weights, a percentage/quorum grid, expired or not); plus trace validation: the harness calls the real cw3::Proposal::{is_passed,is_rejected,current_status} on the same complete domain and on boundary/random inputs at u64 magnitudes (operands logged as limbs), and TLC checks every recorded result (BigNat arithmetic for the large ones: exact for <= 9 decimals, within one vote and never stricter for 18).",
             "design_ref": "DESIGN.md 6/C04", "note": NOTE, "technique": "TLA+ transcription + TLC complete small domain + TLC (BigNat) validation of recorded real-function results"},
+    "C03": {"text": mc("spec/cw3/Cw3.tla + Cw3MC.tla (both multisig flavours, stored vs reported status, clock, group updates, deposits; 3 addresses, weights -1..2, 1-2 concurrent proposals)")
+                    + ". Formulas: reported status = outcome the threshold rules define for the reported ballots/total/expiry (invariant, closed forms model-checked against the quantification over completions), passed/executed implies yes weight, Execute and Close admitted only in the right outcome.",
+            "design_ref": "DESIGN.md 6/C03", "note": NOTE, "technique": "TLA+ spec + TLC model checking + TLC trace validation of real executions"},
+    "C05": {"text": mc("spec/cw3/Cw3.tla + Cw3MC.tla") + ". Formulas: at most one successful Execute per proposal (history invariant), proposal messages leave the multisig only in a successful Execute of that proposal exactly as proposed, executor rule, failed/re-entrant calls change nothing, status monotone, ids increase, content immutable, expiry bounded by the voting period, Close only expired and not passed, Vote emits nothing. Fault alphabet: failing bank dispatch, a target with a failure switch, re-entrant Execute/Close/Vote.",
+            "design_ref": "DESIGN.md 6/C05", "note": NOTE, "technique": "TLA+ spec + TLC model checking + TLC trace validation of real executions"},
+    "C06": {"text": mc("spec/cw3/Cw3.tla + Cw3MC.tla (membership at the start of each block as spec state; group updates before, in the same block as, and after propose/vote)") + ". Formulas: one immutable ballot per address, vote window, ballot weight = snapshot weight >= 1 (proposer may be 0), total = sum of the snapshot and ballots never outweigh it, group's own at_height answer equals the inferred snapshot, later changes irrelevant, fixed voter table static with declared total = its sum. Known finding D3 exempted narrowly (same-block change before Propose).",
+            "design_ref": "DESIGN.md 6/C06", "note": NOTE, "technique": "TLA+ spec + TLC model checking + TLC trace validation of real executions"},
+    "C15": {"text": mc("spec/cw3/Cw3.tla + Cw3MC.tla (native and cw20 deposits, refund flag, deposit pool)") + ". Formulas: Propose takes exactly the configured amount of the configured token (funds / cw20 pull), refunds only to the proposer at Execute or (flag) Close, at most once (held history), pool = deposits held, no other balance moves; must-succeed clause: Close of an expired failed proposal with refunds enabled succeeds (ENABLED in MC, drain phase on the real code). Known finding D6 exempted narrowly (stored-Rejected proposals).",
+            "design_ref": "DESIGN.md 6/C15", "note": NOTE, "technique": "TLA+ spec + TLC model checking + TLC trace validation of real executions"},
 }
 
 NOT_APPLICABLE = {
-    "C03": "check under construction in this session (cw3 specification not yet bound); will be claimed when its check exists",
-    "C05": "check under construction in this session",
-    "C06": "check under construction in this session", "C07": "check under construction in this session",
+    
+
+ "C07": "check under construction in this session",
     "C08": "check under construction in this session", "C09": "check under construction in this session",
     "C10": "check under construction in this session", "C11": "check under construction in this session",
     "C12": "check under construction in this session", "C14": "check under construction in this session",
-    "C15": "check under construction in this session", "C16": "check under construction in this session",
+ "C16": "check under construction in this session",
     "C17": "check under construction in this session", "C18": "check under construction in this session",
     "C20": "check under construction in this session",
 }
